@@ -24,6 +24,8 @@ CANDS = [('UNARY', '-'), ('UNARY', '!'), ('UNARY', '+'), ('UNARY', '++'), ('POST
 TEXTS = ['- a', '! a', '+ a', '++ a', '++ a ++', 'f', 'a ( f )', 'a + b', 'a * b', 'a - b', 'a ++', 'a --', 'a ? b : c', 'f ( a )', 'g ( a , b )', 'f ( )', 'a', 'b', 'c',
          '[ a , b ]', '[ ]', '{ a : b }', 'a ; b', '1.50', '"s"', 'true',
          '- a + f ( [ b ] ) * { a : b ++ } ; a ? b : c', 'a - - b', 'f ( g ( a ) , - a ) ++',
+         # assignment-type operators, also with targets that are not names (the parser accepts them)
+         'a = b', 'a += b ++', '2 = 3 = 4', 'f ( a ) += 1', '[ a ] = b', 'a ++ = 1', '- a = b',
          # deep trees (the property has no depth bound): a 70-term sum (left-deep), 70 nested lists / calls, 70 prefix operators
          ' + '.join(['a'] * 70), '[ ' * 70 + 'a' + ' ]' * 70, 'f ( ' * 70 + 'a' + ' )' * 70, '- ' * 70 + 'a']
 SETTERS = {'UNARY': 'set_unary_descriptor', 'BINARY': 'set_binary_descriptor', 'POSTFIX': 'set_postfix_descriptor',
